@@ -225,3 +225,10 @@ while True:
     yield_()
 """, opts={})
 raw("FX-D41-hash-colon-hash", "C08", {"src": {"": HDR + "db.Setting = HASH('0:#')\nd1.Setting = HASH(\"room: #2\")\n"}, "opts": {"remove_labels": True, "inline_functions": False}, "family": "strings"})
+raw("FX-D42-source-comments-of-library-lines", "C02", {"src": {
+    "": HDR + "from library import a as am\nwhile True:\n    am.a()\n    yield_()\n",
+    "a": HDR + "def a():\n    d1.Setting = 101\n    if d0.On > 1:\n        d1.Mode = 1\n    else:\n        d1.Mode = -1\n"},
+    "env_seeds": [1], "pool": POOL, "vectors": [1, 3], "pragma_vectors": [], "no_tco": True})
+raw("FX-D43-tail-call-option-and-builtin-last-statement", "C02", {"src": {
+    "": HDR + "def f(a):\n    db.Setting = a\n    yield_()\ndef g(a):\n    d1.Setting = a\n    sb(HASH(\"StructureWallLight\"), LogicType.On, 1)\nwhile True:\n    f(1)\n    f(2)\n    g(3)\n    g(4)\n"},
+    "env_seeds": [1], "pool": POOL, "vectors": [64, 68], "pragma_vectors": []})
